@@ -68,7 +68,14 @@ let handle (toks : string list) : string =
            let hops = Sess.parse_nops (zs base) ops in
            let model = Sess.show_strace (Sess.run_nhops c hops) in
            let impl = String.concat " " obs in
-           if model <> impl then "diff session_trace model=" ^ model else "ok nt"
+           let tbl = Hashtbl.create 64 in
+           let tr = Sess.parse_strace tbl obs in
+           (* session shape is C10's subject; C02 judges the watermark discipline of the same trace *)
+           let shape = ["gap_not_split"; "start_not_earliest"; "end_not_latest_plus_timeout"; "split_within_timeout"] in
+           let cls = List.filter (fun x -> not (List.mem x shape))
+                       (List.sort_uniq compare (List.map Sess.string_of_nclause (chk_C10 c (zs base) tr))) in
+           if cls <> [] then "chk " ^ String.concat "," cls ^ (if model <> impl then " (and model differs)" else "")
+           else if model <> impl then "diff session_trace model=" ^ model else "ok nt"
        | _ -> "bad line")
   | _ -> "bad line"
 
